@@ -8,7 +8,7 @@ FUNCS = ['RangeProof::verify_batch', 'RangeProof::verify', 'RangeProof::verify_s
 
 def configs(tier):
     if tier == 'quick':
-        return [(8, 1, 1, 1, True), (2, 2, 4, 2, False), (4, 4, 4, 1, False), (2, 1, 1, 6, True)]
+        return [(8, 1, 1, 1, True), (2, 2, 4, 2, False), (4, 4, 4, 1, False), (2, 1, 1, 6, True), (1, 8, 8, 1, False)]
     return [(8, 1, 1, 1, True), (2, 2, 4, 2, False), (4, 4, 4, 1, False), (64, 1, 2, 1, True), (16, 2, 2, 6, False), (1, 2, 2, 3, False), (8, 8, 8, 2, False), (32, 1, 1, 4, False)]
 
 
